@@ -338,4 +338,30 @@ func processPublish(c *Client, packet packets.ControlPacket)
   ghost at call[1] writePacket: paAcked := typeIs(queued, "*packets.PubackPacket")
   ghost at call[1] writePacket: paObj := ifaceVal(queued)
   ghost at call[1] writePacket: paID := ptr(ifaceVal(queued), "*packets.PubackPacket").MessageID
+
+// ---- C16: the storage goroutine writes every session copy that was queued ----
+// (Session.store hands the encoded session to storeCh; doStore is the only writer of the persisted copies: a
+// copy it drops is a subscription change a later connection will not see)
+ghost var gStoreReceived int
+ghost var gStorePuts int
+ghost var gStoreFaithful bool
+ghost var gStoreKey string
+ufunc sessionKeyOf(clientID string) string
+func sessionStoreKey(clientID string) (k string)
+  trusted
+  pure
+  ensures k == sessionKeyOf(clientID)
+iface (s storage) put(key string, value string) (err error)
+  pure
+func (sm *SessionManager) doStore()
+  flag allocates
+  flag frame=unchecked
+  requires sm != nil && sm.store != nil
+  modifies gStoreReceived, gStorePuts, gStoreFaithful
+  ensures every-queued-session-copy-is-written-under-its-clients-key: gStorePuts - old(gStorePuts) == gStoreReceived - old(gStoreReceived) && gStoreFaithful
+  invariant[1] gStorePuts - old(gStorePuts) == gStoreReceived - old(gStoreReceived) && gStoreFaithful
+  ghost at entry: gStoreFaithful := true
+  ghost at select-case[2]: gStoreReceived := gStoreReceived + 1
+  ghost at call put: gStorePuts := gStorePuts + 1
+  ghost at call put: gStoreFaithful := gStoreFaithful && key == sessionKeyOf(kv.key) && value == kv.value
 @*/
